@@ -39,7 +39,7 @@ TShape2Geo ==
               ELSE /\ ~e.refused /\ e.variant = want
                    /\ CASE Fam(s.t) = "point" ->
                              /\ e.g = XY(s.parts[1][1]) /\ e.coord = e.g
-                             /\ BackOK(s, e.back)
+                             /\ BackOK(s, e.back) /\ BackOK(s, e.backc)
                         [] Fam(s.t) = "multipoint" ->
                              /\ e.g = XYs(s.parts[1])
                              /\ BackOK(s, e.back)
